@@ -3,12 +3,25 @@
 #ifndef TETL_TYPE_TRAITS_MAKE_SIGNED_HPP
 #define TETL_TYPE_TRAITS_MAKE_SIGNED_HPP
 
+#include <etl/_type_traits/conditional.hpp>
+#include <etl/_type_traits/remove_cv.hpp>
+#include <etl/_type_traits/type_identity.hpp>
+
 namespace etl {
 
 namespace detail {
 
-template <typename>
-struct make_signed;
+template <typename T, typename... Candidates>
+struct make_signed_same_size;
+
+template <typename T, typename C, typename... Cs>
+struct make_signed_same_size<T, C, Cs...>
+    : conditional_t<sizeof(T) == sizeof(C), type_identity<C>, make_signed_same_size<T, Cs...>> { };
+
+/// char, wchar_t, char8_t, char16_t, char32_t and enumerations: the signed
+/// integer type with the smallest rank that has the same size.
+template <typename T>
+struct make_signed : make_signed_same_size<T, signed char, signed short, signed int, signed long, signed long long> { };
 
 template <>
 struct make_signed<signed char> {
@@ -76,7 +89,24 @@ struct make_signed<unsigned long long> {
 ///
 /// \ingroup type_traits
 template <typename Type>
-struct make_signed : etl::detail::make_signed<Type> { };
+struct make_signed {
+    using type = typename etl::detail::make_signed<etl::remove_cv_t<Type>>::type;
+};
+
+template <typename Type>
+struct make_signed<Type const> {
+    using type = typename make_signed<Type>::type const;
+};
+
+template <typename Type>
+struct make_signed<Type volatile> {
+    using type = typename make_signed<Type>::type volatile;
+};
+
+template <typename Type>
+struct make_signed<Type const volatile> {
+    using type = typename make_signed<Type>::type const volatile;
+};
 
 template <typename T>
 using make_signed_t = typename make_signed<T>::type;
